@@ -15,9 +15,11 @@ from ..model import run_model
 from . import _de
 from . import c16
 from . import _c17x as X
+from . import _c17_gen
 from ._de import fr, qvec, qmat, vec_close, mat_close
 
 ASSUMPTIONS = [
+    _c17_gen.ASSUMPTION,
     'the cache key str((sorted widths, sorted distances)) of Python floats is modelled as the pair of sorted rational lists '
     '(stripes are dyadic, so the floats are exact)',
     'reuse on/off comparisons use tolerance 1e-12 for matrix entries / right-hand sides and 1e-8 for quantities behind the LAPACK solve, '
@@ -164,6 +166,40 @@ def gen_breplace(rng):
                 data=data, classes=[rng.choice([-1, 1]) for _ in range(M)] if lab else None)
 
 
+def gen_breuse_boundary(rng):
+    """grids WITH boundary points (GlobalTrapezoidalGrid(boundary=True)): nested pair beyond the threshold, re-use on / off"""
+    c = gen_breuse(rng)
+    c.update(kind='b-reuse-boundary')
+    if rng.random() < 0.5:                       # samples on the domain boundary as well
+        c['data'] = c['data'] + [[1.0, 0.5], [0.0, 0.25], [1.0, 1.0]]
+        if c['classes'] is not None:
+            c['classes'] = c['classes'] + [1, -1, 1]
+    return c
+
+
+def impl_breuse_boundary(case):
+    import numpy as np
+    import warnings
+    from sparseSpACE.GridOperation import DensityEstimation
+    out = {}
+    for reuse in (False, True):
+        op = X._mk_op(DensityEstimation, case['dim'], case['data'], case['classes'], 0.0, reuse, boundary=True)
+        op.init_dimension_wise(op.grid, None, _de._RC(), [1] * case['dim'], [6] * case['dim'], np.zeros(case['dim']), np.ones(case['dim']))
+        op.initialize_evaluation_dimension_wise(_de._RC())
+        bs = []
+        for st, lv in zip(case['grids'], case['levels']):
+            stripes = [[np.float64(v) for v in s] for s in st]      # the refinement hands over numpy floats
+            levels = [list(l) for l in lv]
+            op.grid.set_grid(stripes, levels)
+            with warnings.catch_warnings():
+                warnings.simplefilter('ignore')
+                bs.append(_de.tolist(op.calculate_B_dimension_wise(op.data, stripes, levels)))
+            op.surpluses = {(1,) * case['dim']: np.zeros(1)}
+            op.post_processing()
+        out['on' if reuse else 'off'] = bs
+    return out
+
+
 def gen_adaptive_rebalance(rng):
     """skewed data, rebalancing on, refined until component grids exceed the threshold over several refinement steps"""
     dim = 2
@@ -246,6 +282,12 @@ CORPUS.append(dict(kind='op-history', dim=1, size='edge200', data=[[0.0], [1.0],
                    steps=[dict(ops=[], grids=[dict(lv=[1], stripes=[[0.0] + [3 * i / 1024 for i in range(1, 201)] + [1.0]],
                                                    levels=[[0] + [1] * 200 + [0]], solve=False, seed=1)],
                                order='post-first', points2=None, twice=False)]))
+
+# exemplar of the known finding C17-reuse-boundary-old-point-list (grid WITH boundary points, 17 x 17 points, one coordinate added)
+_s0 = [i / 32 for i in range(0, 33, 2)]
+CORPUS.append(dict(kind='b-reuse-boundary', dim=2, grids=[[_s0, _s0], [sorted(_s0 + [1 / 32]), _s0]],
+                   levels=[[[1] * 17, [1] * 17], [[1] * 18, [1] * 17]],
+                   data=[[0.3125, 0.40625], [0.546875, 0.703125], [0.796875, 0.203125]], classes=None))
 
 # exemplar of the known finding C17-rhs-reuse-adaptive-run (complete adaptive run reaching 217 points)
 _p = _os.path.join(_os.path.dirname(__file__), 'c17_corpus_adaptive.json')
@@ -367,6 +409,8 @@ def _impl_case(case):
         return impl_breuse(case)
     if k == 'adaptive':
         return impl_adaptive(case)
+    if k == 'b-reuse-boundary':
+        return impl_breuse_boundary(case)
     if k == 'op-history':
         return X.impl_ophist(case)
     if k == 'adaptive-steps':
@@ -552,6 +596,16 @@ def process(chk, cases, verbose=False):
                     ok = False
                     break
             chk.count('b-reuse-' + c.get('variant', 'nested'))
+            keys.append((k, str(c['grids']), str(c['data'])))
+        elif k == 'b-reuse-boundary':
+            for step in (0, 1):
+                on = fr(r['on'][step]); off = fr(r['off'][step])
+                if not vec_close(on, off, REL, 1e-15):
+                    chk.violation('oracle:reuse_on_equals_off', 'rhs-reuse-differs',
+                                  dict(path=k, step=step, boundary=True), c,
+                                  dict(step=step, entries_differing=sum(1 for a, b in zip(on, off) if not _de.close(a, b, REL, 0, 1e-15)),
+                                       max_abs_diff=float(max(abs(a - b) for a, b in zip(on, off)))))
+                    break
             keys.append((k, str(c['grids']), str(c['data'])))
         elif k == 'adaptive':
             on, off = r['on'], r['off']
@@ -741,7 +795,9 @@ def process(chk, cases, verbose=False):
 
 
 def run(chk):
-    chk.coq_obligations()
+    gen_info = _c17_gen.regenerate(chk)
+    chk.coq_obligations(extra_props=_c17_gen.EXTRA_PROPS)
+    gen_problem = _c17_gen.diagnose(chk, gen_info)
     rng = chk.rng
     q = chk.quick
     cases = list(CORPUS)
@@ -749,6 +805,7 @@ def run(chk):
     cases += [gen_history_numeric(rng) for _ in range(chk.n(2, 12))]
     cases += [gen_breuse(rng) for _ in range(chk.n(8, 80))]
     cases += [gen_breplace(rng) for _ in range(chk.n(10, 100))]
+    cases += [gen_breuse_boundary(rng) for _ in range(chk.n(5, 40))]
     cases += [gen_adaptive_rebalance(rng) for _ in range(chk.n(4, 30))]
     cases += [gen_adaptive(rng, q) for _ in range(chk.n(16, 300))]
     if not q:
@@ -770,6 +827,7 @@ def run(chk):
               X.gen_ophist(rng, size='huge'), X.gen_ophist(rng, size='huge', M=65), X.gen_ophist(rng, size='above', M=2049)]
     cases += [X.gen_std(rng) for _ in range(chk.n(4, 30))]
     process(chk, cases)
+    _c17_gen.finish(chk, gen_info, gen_problem)
 
 
 def replay(chk, rep):
